@@ -64,6 +64,16 @@ ENGINES["client"] = {
     "stub": ["file system -> simfs in-memory disk with an operation log; embedded UI assets -> one placeholder file (they are not in the checkout)"],
 }
 
+ENGINES["ctl"] = {
+    "pkg": "./harness/ctl",
+    "instr": ["chord:1:node_state.go=2", "kv/memory:1", "util/promise:1", "util/atomic:1", "tun/server:1", "spec/transport:1"],
+    "inject": {"chord/zz_verif_export.go": "inject/chord/zz_verif_export.go", "tun/server/zz_verif_export.go": "inject/tunserver/zz_verif_export.go"},
+    "real": ["tun/server.Server with its real RPC wiring (attachRPC: twirp servers + verifyClientIdentity hook + chi + rate limiter + http.Server), spec/transport.StreamRouter, rpc.DynamicTunnelClient (net/http client)",
+             "spec/pki certificate generation and identity extraction", "route cache (theine) and its loader", "the KV of a real 1-3 node chord ring (chord.LocalNode + kv/memory over simnet)"],
+    "stub": ["QUIC transports -> simnet.MemTransport (in-memory pipes; the verified peer certificate of a stream is set directly, as the QUIC transport does after its handshake)",
+             "clock -> testing/synctest fake clock"],
+}
+
 def ring(level="exploration", quick=240, thorough=6000, note=""):
     return {"engine": "ring", "level": level, "quick": quick, "thorough": thorough, "note": note}
 
@@ -113,7 +123,15 @@ PROPS.update({
     "C45": {"engine": "client", "level": "fault_enumeration", "quick": 400, "thorough": 20000},
 })
 
+PROPS.update({
+    "C25": {"engine": "ctl", "level": "exploration", "quick": 96, "thorough": 3000},
+    "C26": {"engine": "ctl", "level": "exploration", "quick": 160, "thorough": 6000},
+    "C28": {"engine": "ctl", "level": "fault_enumeration", "quick": 48, "thorough": 1000},
+    "C51": {"engine": "ctl", "level": "exploration", "quick": 96, "thorough": 3000},
+})
+
 RULES = {
+    "ctl": "one evaluation = one seeded world (1-3 tunnel servers on a real chord ring, 2-5 simulated clients of different kinds, a seeded operation list) executed under a seeded schedule; distinct = distinct (task, yield site) sequences; non-trivial = the world booted and the scenario ran to its end",
     "client": "one evaluation = one seeded client configuration (certificate, key, tunnels) saved 1-3 times with changed content on the simulated disk; every operation boundary of every save is a crash image that is loaded with the real NewConfig; distinct = distinct configurations",
     "syncobj": "one evaluation = one seeded plan (operations per task, chunk sizes, delays, close/cancel/deadline instants, scripted outcomes) executed on the real object under a seeded schedule; distinct = distinct (task, yield site) sequences (for the enumerated checks C15/C38: distinct cells); non-trivial by the per-check rule in the harness (more than one successful transition / payload larger than the buffer / more than one task ...)",
     "store": "one evaluation = one seeded history of KV operations applied to one backend (memory / append-only log on the simulated disk / SQLite through the recording VFS) inside a simulated run, compared with the reference model operation by operation; "
@@ -323,9 +341,11 @@ def minimise(binp, prop, tier, engine, rec, viol, tmp, budget_s=150):
         # coarse to fine
         for key in ("clients", "lookups", "faults"):
             lst = pl.get(key) or []
+            if not isinstance(lst, list):
+                continue
             for i in range(len(lst)):
                 c = json.loads(json.dumps(pl)); del c[key][i]; yield c
-        for ni, n in enumerate(pl.get("nodes") or []):
+        for ni, n in enumerate(pl.get("nodes") if isinstance(pl.get("nodes"), list) else []):
             ops = n.get("ops") or []
             for k in range(len(ops) - 1, 0, -1):
                 c = json.loads(json.dumps(pl)); c["nodes"][ni]["ops"] = ops[:k]; yield c
@@ -337,7 +357,7 @@ def minimise(binp, prop, tier, engine, rec, viol, tmp, budget_s=150):
                     break
             for i in range(len(ops)):
                 c = json.loads(json.dumps(pl)); del c["ops"][i]; yield c
-        for ci, cl in enumerate(pl.get("clients") or []):
+        for ci, cl in enumerate(pl.get("clients") if isinstance(pl.get("clients"), list) else []):
             ops = cl.get("ops") or []
             if len(ops) > 1:
                 for half in (ops[: len(ops) // 2], ops[len(ops) // 2:]):
@@ -412,6 +432,13 @@ def main():
             allrecs += recs
             allcrashed += crashed
         code = report(prop, tier, engines, seed, allrecs, allcrashed, bins, tmp, t0, build_s, planned)
+    except SystemExit:
+        raise
+    except Exception:
+        import traceback
+        print("DRIVER-ERROR (exit 2, not a violation):")
+        traceback.print_exc(file=sys.stdout)
+        code = 2
     finally:
         if not a.keep_tmp:
             shutil.rmtree(tmp, ignore_errors=True)
@@ -475,8 +502,9 @@ def report(prop, tier, engines, seed, recs, crashed, bins, tmp, t0, build_s, pla
             pl = r["plan"]
             samples.append({"seed": r["seed"], "steps": r.get("steps"), "sim_seconds": round(r.get("sim_ns", 0) / 1e9, 2),
                             "plan_digest": {k: pl.get(k) for k in ("profile", "stab", "fix", "pred", "sched", "net") if k in pl},
-                            "nodes": [{"id": n.get("id"), "ops": [o.get("kind") for o in n.get("ops", [])]} for n in (pl.get("nodes") or [])][:12],
-                            "clients": [[o.get("kind") for o in c.get("ops", [])][:12] for c in (pl.get("clients") or [])][:4],
+                            "nodes": [{"id": n.get("id"), "ops": [o.get("kind") for o in n.get("ops", [])]} for n in (pl.get("nodes") or [])][:12] if isinstance(pl.get("nodes"), list) else None,
+                            "clients": [[o.get("kind") for o in c.get("ops", [])][:12] for c in pl.get("clients")][:4] if isinstance(pl.get("clients"), list) else pl.get("clients"),
+                            "servers": pl.get("servers"),
                             "store_plan": {k: pl.get(k) for k in ("backend", "hash", "alphabet", "tasks") if k in pl},
                             "ops": [(o.get("kind"), o.get("key"), o.get("val")) for o in (pl.get("ops") or [])][:25] if isinstance(pl.get("ops"), list) else None,
                             "config": pl if "user_version" in pl else None,
